@@ -97,8 +97,16 @@ def convert(case, data, out, setting, d, tag, earlier=()):
         il, xl = list(range(1, n_il + 1)), list(range(1, n_xl + 1))
         cols.update(sgy.regular_cols(il, xl))
         if case.get("prior") is not None and tag == "a":
-            pdata = gen.make_values(data.shape, "gauss", case["prior"])
-            sgy.write_segy(path, pdata.reshape(-1, ns), cols, 4000, fmt=6 - case["fmt"], grid=(il, xl))
+            if case["prior"] % 3 == 0 and n_il > 3 and n_xl > 3:
+                # (a smaller survey: what is remembered about the file of that name must not size the next conversion)
+                pil, pxl = il[:n_il - 2], xl[:n_xl - 1]
+                pcols = sgy.base_cols(len(pil) * len(pxl), ns, 4000, 0)
+                pcols.update(sgy.regular_cols(pil, pxl))
+                pdata = gen.make_values((len(pil), len(pxl), ns), "gauss", case["prior"])
+                sgy.write_segy(path, pdata.reshape(-1, ns), pcols, 4000, fmt=6 - case["fmt"], grid=(pil, pxl))
+            else:
+                pdata = gen.make_values(data.shape, "gauss", case["prior"])
+                sgy.write_segy(path, pdata.reshape(-1, ns), cols, 4000, fmt=6 - case["fmt"], grid=(il, xl))
             pout = os.path.join(d, "prior.sgz")
             conv.segy_convert(path, pout, 4, (4, 4, -1), reduce_iops=(case["reader"] == "reduced"), header_detection="strip")
             if get_hash(pout) != sha(sgy.read_source(path)["traces"]):
